@@ -762,11 +762,11 @@ func (tx *Transaction) ProcessConnection(client string, cPort int, server string
 
 // ExtractGetArguments transforms an url encoded string to a map and creates ARGS_GET
 func (tx *Transaction) ExtractGetArguments(uri string) {
-	data := urlutil.ParseQuery(uri, '&')
-	for k, vs := range data {
-		for _, v := range vs {
-			tx.AddGetRequestArgument(k, v)
-		}
+	// in the order of the query string: with the map of ParseQuery, which of two names that
+	// differ only in letter case comes first in ARGS_GET (and which arguments the argument limit
+	// drops) would depend on Go's random map iteration order
+	for _, kv := range urlutil.ParseQueryPairs(uri, '&') {
+		tx.AddGetRequestArgument(kv[0], kv[1])
 	}
 }
 
